@@ -1,5 +1,6 @@
 #!/usr/bin/env python3
-"""usage: reverify_seeds.py [substr] [-j N]
+"""usage: reverify_seeds.py [substr] [-j N] [-f]
+Seeds already confirmed at the current HEAD are skipped unless -f is given.
 Re-confirms every sub-agent seed (seeded/<name> with a demonstration) against /repo's current HEAD, each in its own
 scratch worktree (removed afterwards): the demonstration passes on the clean tree, the patch applies, both build
 configurations compile, the existing suite passes in both, and the demonstration fails with the patch.
@@ -30,6 +31,8 @@ def one(name):
     demo = meta.get("demo")
     if not demo or not os.path.exists(d + "/patch.diff"):
         return name, "skipped"
+    if meta.get("reverified", {}).get("head") == HEAD and meta["reverified"].get("verdict") == "ok" and not FORCE:
+        return name, "skipped"
     wt = "/tmp/rv-" + name
     subprocess.run(["git", "-C", "/repo", "worktree", "add", "--detach", "-q", wt, "HEAD"], check=True)
     try:
@@ -58,8 +61,12 @@ def one(name):
         subprocess.run(["git", "-C", "/repo", "worktree", "remove", "--force", wt])
 
 
+HEAD = subprocess.run(["git", "-C", "/repo", "rev-parse", "--short", "HEAD"], capture_output=True, text=True).stdout.strip()
+FORCE = "-f" in sys.argv
+
+
 def main():
-    args = [a for a in sys.argv[1:]]
+    args = [a for a in sys.argv[1:] if a != "-f"]
     j = 4
     if "-j" in args:
         i = args.index("-j"); j = int(args[i + 1]); del args[i:i + 2]
